@@ -396,7 +396,7 @@ def accLineOp (frames : List Page) (s : AccImg) (toks : List String) : AccImg :=
   | _ => { s with out := "bad" :: s.out }
 
 def runAccRun (cfg : List String) (ops : List String) : String :=
-  match (kv? cfg "frames").bind (fun f => (f.splitOn ",").mapM fun e =>
+  match (kv? cfg "frames").bind (fun f => if f == "" then some [] else (f.splitOn ",").mapM fun e =>
       match e.splitOn ":" with
       | [p, z] => do
         let p ← hexNat? p
